@@ -549,7 +549,8 @@ class AModel(Model):
         # ---- module-level helper functions of _archives.py taking self
         if f[0] == 'lib' and full.startswith('func:'):
             fi = self.module.functions.get(full[5:])
-            if fi is not None and any(a == SELF for a in args):
+            if fi is not None and (any(a == SELF for a in args) or full[5:] not in ('_to_frame', '_from_frame')):
+                # helper functions of the module are part of the code under analysis (e.g. a shared serializer/mode selector)
                 return self.engine.inline(fi.node, full[5:], {}, args, kws, st, node)
         return None
 
